@@ -7,7 +7,6 @@ import (
 	"time"
 
 	"github.com/anishathalye/porcupine"
-	"github.com/avfs/avfs/idm/memidm"
 	"github.com/avfs/avfs/verifrt"
 
 	"verif/lib/kf"
@@ -120,7 +119,7 @@ func runConcurrent(tier string, rep *kf.Reporter, deadline time.Time) (partResul
 		var harnessErr error
 
 		run := func(prefix []int8) sched.Exec {
-			idm := memidm.New()
+			idm := newIdm()
 			for _, c := range p.setup {
 				execCall(idm, c)
 			}
@@ -404,7 +403,7 @@ func bad(ms []Mismatch) bool {
 // fresh real MemIdm to obtain the outcomes the model consumes).
 func modelAfter(adminG, adminU string, setup []Call) *Model {
 	m := NewModel(adminG, adminU)
-	idm := memidm.New()
+	idm := newIdm()
 
 	for _, c := range setup {
 		m.Step(c, execCall(idm, c))
@@ -428,7 +427,7 @@ func stripDigits(s string) string {
 }
 
 func adminNames() (g, u string) {
-	idm := memidm.New()
+	idm := newIdm()
 
 	return idm.AdminGroup().Name(), idm.AdminUser().Name()
 }
